@@ -80,13 +80,13 @@ def base_layouts(keys):
                     yield dict(wide=wide, index=idx, header=header, omit=omit)
 
 
-def secondary(tier, n):
+def secondary(tier, n, seed=0):
     full = [dict(valname=v, rowperm=r, colperm=c, medium=m, sparse=s) for v in ("value", "amount") for r in ROWPERMS for c in COLPERMS for m in ("memory", "csv") for s in (False, True)]
     if tier == "thorough":
         return full
     # quick: three members of the full product per base layout, rotating so that every value of every axis
     # (and many pairs) occurs across the base layouts of a dimension set
-    k = (n * 7) % len(full)
+    k = (n * 7 + seed * 5) % len(full)
     return [full[(k + 13 * m) % len(full)] for m in range(6)]
 
 
@@ -95,7 +95,7 @@ def bounds(tier):
 
 
 def units(tier, seed):
-    return [dict(keys=ks, tier=tier, kind="layouts") for ks in dim_sets(tier)] + [dict(keys=ks, tier=tier, kind="to_df") for ks in dim_sets(tier)]
+    return [dict(keys=ks, tier=tier, kind="layouts", seed=seed) for ks in dim_sets(tier)] + [dict(keys=ks, tier=tier, kind="to_df", seed=seed) for ks in dim_sets(tier)]
 
 
 def excluded(keys, lay):
@@ -265,7 +265,7 @@ def run_unit(u):
                                 rec(*run_dup_case(keys, header, i, j, where, am))
         return res
     for n, base in enumerate(base_layouts(keys)):
-        for sec in secondary(tier, n):
+        for sec in secondary(tier, n, u.get("seed", 0)):
             lay = dict(base)
             lay.update(sec)
             if excluded(keys, lay):
